@@ -111,8 +111,10 @@ func checkC10(c *Ctx) {
 		}})
 	}
 	c.Set("sink_fault_scripts", int64(n))
+	// a buffering sink in front of a failing destination: a failure met by the periodic flush must not vanish
+	runBwsFault(c, "C10")
 	c.Set("exhaustive", true)
-	c.Set("rule", "every fault-carrying behaviour of JsonEnc.tla inside the generator bounds; every (entry, core) failure script of SinkFaults.tla for 1-3 cores x "+ne+" entries, each through 11 compositions / front ends, followed by a Logger.Sync with scripted Sync failures")
+	c.Set("rule", "every fault-carrying behaviour of JsonEnc.tla inside the generator bounds; every (entry, core) failure script of SinkFaults.tla for 1-3 cores x "+ne+" entries, each through 11 compositions / front ends, followed by a Logger.Sync with scripted Sync failures; every history of BWSFault.tla (writes, Sync, flush ticks, Stop over a sink failing with error / partial / short writes / Sync errors) through a Logger over a BufferedWriteSyncer")
 }
 
 type sfSink struct {
